@@ -68,6 +68,25 @@ u32 x_verif_sym(u32 k, u64 pos, u32 a, u32 m, u64 *np) {
 void x_verif_event(u32 kind, u32 rule, u64 a, u64 b) { (void)kind; (void)rule; (void)a; (void)b; }
 #endif
 
+#ifdef SP_K2
+/* sub-rules whose behaviour may depend on the end of the (sub-)input they are run on: T2[k][pos][end] */
+static u8 T2_res[SP_K2][SP_N + 1][SP_N + 1];
+static u64 T2_np[SP_K2][SP_N + 1][SP_N + 1];
+static u64 T2_garb[SP_K2][SP_N + 1][SP_N + 1];
+u32 x_verif_sym2(u32 k, u64 pos, u64 end, u32 a, u32 m, u64 *np) {
+#ifndef __CPROVER__
+  if (++sp_calls > 4096) { sp_exhausted = 1; *np = pos; return 0; }
+  if (k >= SP_K2 || pos > end || end > sp_n) { printf("ASSERT-FAIL stub2 called out of range\n"); vf_fail++; *np = pos; return 0; }
+#endif
+  CHECK(k < SP_K2 && pos <= end && end <= sp_n, "sub-rule invoked at a position inside its (sub-)input");
+  u32 r = T2_res[k][pos][end];
+  if (r == 1) *np = T2_np[k][pos][end];
+  else if (r >= 2) *np = T2_garb[k][pos][end];
+  else *np = (m == 0) ? pos : T2_garb[k][pos][end];
+  return r;
+}
+#endif
+
 static out_t sp_succ(u64 q, u64 far) { out_t o = { 1, q, 0, 0, far }; return o; }
 static out_t sp_fail(u64 p, u64 far) { out_t o = { 0, p, 0, 0, far }; return o; }
 static out_t sp_div(u64 p) { out_t o = { 4, p, 0, 0, p }; return o; }
@@ -79,6 +98,17 @@ static out_t sp_sym(int k, u64 p) {
   if (o.r == 3) { o.id = 2000 + k; o.lo = o.far; }
   return o;
 }
+
+#ifdef SP_K2
+static out_t sp_sym2(int k, u64 p, u64 end) {
+  out_t o = { T2_res[k][p][end], p, 0, p, p };
+  if (o.r == 1) { o.pos = T2_np[k][p][end]; o.far = o.pos; }
+  else { o.far = T2_garb[k][p][end]; }
+  if (o.r == 2) { o.id = 1100 + k; o.lo = o.far; }
+  if (o.r == 3) { o.id = 2100 + k; o.lo = o.far; }
+  return o;
+}
+#endif
 
 /* independent recount of line/column from the consumed prefix (eol = '\n') */
 static void sp_recount(u64 byte, u64 *line, u64 *col) {
@@ -92,7 +122,7 @@ static void sp_setup(void) {
   sp_nlog = 0;
 #endif
   sp_n = IN(0, SP_N);
-  sp_buf = (u8 *)exact_alloc(sp_n);
+  sp_buf = (u8 *)exact_alloc_n(sp_n, SP_N);
 #if defined(SP_BYTES) && SP_BYTES
   /* rules that consume raw bytes themselves (until<R> = until<R, any>): symbolic bytes without the eol character, so that
    * column = 1 + byte stays the recount (byte-level line counting is C06's subject) */
@@ -107,6 +137,16 @@ static void sp_setup(void) {
       T_np[k][p] = IN(p, hi);
       T_garb[k][p] = IN(p, hi);
     }
+#ifdef SP_K2
+  for (int k = 0; k < SP_K2; ++k)
+    for (u64 p = 0; p <= SP_N; ++p)
+      for (u64 e = 0; e <= SP_N; ++e) {
+        T2_res[k][p][e] = (u8)IN(0, SP_MAXRES);
+        u64 hi = p <= e ? e : p;
+        T2_np[k][p][e] = IN(p, hi);
+        T2_garb[k][p][e] = IN(p, hi);
+      }
+#endif
 }
 
 #endif
